@@ -225,6 +225,67 @@ theorem mam_finishes_once (e2ee instant : Bool) (ops : List Mam.Op)
   · exact absurd hw h1.1
   · exact ⟨h1.2.1, h1.2.2⟩
 
+/-! ### Continuation chaining (`chain`, `chainIq`, `chainSuccess`, `chainMapSuccess`) on the task model of C13
+
+`chain(source, context, convert)` attaches one continuation to `source` and finishes a new promise
+with the converted value each time that continuation runs.  `C07Chain.finishes evs k` counts the runs
+of continuation `k` among the source's events from the `then` call on; `k` is the source's `nextId`
+at the call. -/
+
+/-- **A chained task finishes at most once**, whatever happens to the source before and after the
+`chain` call (any kind, any history, any context). -/
+theorem chain_at_most_once (kind : C13.Kind) (pre post : List C13.Op) (ctx : Nat) :
+    C07Chain.finishes (C13.run (C13.run (C13.init kind) pre).1 (.thenOp ctx [] :: post)).2
+      (C13.run (C13.init kind) pre).1.nextId ≤ 1 := by
+  have h := ((C13.Inv.init kind).run pre).run (.thenOp ctx [] :: post)
+  have hn := h.nodup
+  rw [C13.ranIds_append, List.nodup_append] at hn
+  exact List.nodup_iff_count.mp hn.2.1 _
+
+/-- **`chain_once`, source still pending** (the normal case: `sendIq` returned an unfinished task).
+If the source is unfinished and referenced and the context object is alive when `chain` is
+called, and afterwards — before the source is finished — the source only sees handle copies and
+destructions of *other* contexts, then finishing the source finishes the chained task, and it does
+so exactly once in the whole history, whatever follows.  Together with `iq_eventually_exactly_once`
+(the source of a request task is finished exactly once) this covers every manager request built
+from the combinators alone.  (If the context — the manager — is destroyed first, the chained task is
+never finished: `C13.never_after_context_death`.) -/
+theorem chain_once (kind : C13.Kind) (pre quiet post : List C13.Op) (ctx v : Nat)
+    (hr : (C13.run (C13.init kind) pre).1.refs ≠ 0)
+    (hf : (C13.run (C13.init kind) pre).1.finished = false)
+    (ha : (C13.run (C13.init kind) pre).1.alive ctx = true)
+    (hq : ∀ op ∈ quiet, C07Chain.Quiet ctx op) :
+    C07Chain.finishes
+      (C13.run (C13.run (C13.init kind) pre).1 (.thenOp ctx [] :: (quiet ++ .finish v :: post))).2
+      (C13.run (C13.init kind) pre).1.nextId = 1 := by
+  have h1 := chain_at_most_once kind pre (quiet ++ .finish v :: post) ctx
+  have h2 := C07Chain.runs_at_finish quiet post v hr hf ha hq
+  have h3 := List.count_pos_iff.mpr h2
+  unfold C07Chain.finishes at h1 ⊢
+  omega
+
+/-- **`chain_once`, source already finished** (`sendIq` returned a ready task: refused request or
+immediate send error): the continuation runs inside the `chain` call, once, with the stored value. -/
+theorem chain_once_ready (pre post : List C13.Op) (ctx r : Nat)
+    (hk : (C13.run (C13.init .value) pre).1.kind = .value)
+    (hr : (C13.run (C13.init .value) pre).1.refs ≠ 0)
+    (hf : (C13.run (C13.init .value) pre).1.finished = true)
+    (hres : (C13.run (C13.init .value) pre).1.result = some r) :
+    C07Chain.finishes (C13.run (C13.run (C13.init .value) pre).1 (.thenOp ctx [] :: post)).2
+      (C13.run (C13.init .value) pre).1.nextId = 1 := by
+  have h1 := chain_at_most_once .value pre post ctx
+  have hl := (C13.late_then_gets_value _ r ctx [] hr hf hk hres).1
+  have hmem : (C13.run (C13.init .value) pre).1.nextId ∈
+      C13.ranIds (C13.run (C13.run (C13.init .value) pre).1 (.thenOp ctx [] :: post)).2 := by
+    simp only [C13.run, C13.ranIds_append, List.mem_append]
+    left
+    have := List.mem_of_mem_head? hl
+    simp only [C13.ranIds, List.mem_filterMap]
+    exact ⟨_, this, rfl⟩
+  have h3 := List.count_pos_iff.mpr hmem
+  unfold C07Chain.finishes at h1 ⊢
+  omega
+
 /-! ### Non-vacuity: the hypotheses above are met by concrete reachable states. -/
 
 -- a reply from the addressee completes; a second copy of it is ignored
@@ -274,5 +335,16 @@ example : (Mam.run (Mam.init true false) [.start, .collect true true, .collect t
     = [.finishedOk 2] := by decide
 example : (Mam.run (Mam.init false false) [.start, .collect true false, .iqResult, .iqResult, .iqError]).2
     = [.finishedOk 1] := by decide
+
+-- chain: hypotheses of `chain_once` (pending source, a copy and a foreign context death in between) and of `chain_once_ready`
+example : C07Chain.finishes (C13.run (C13.init .value) [.thenOp 1 [], .copyHandle, .destroyCtx 2, .finish 7, .thenOp 1 []]).2 0 = 1 := by decide
+example : (C13.run (C13.init .value) [.finish 7]).1.result = some 7 ∧ (C13.run (C13.init .value) [.finish 7]).1.finished = true
+    ∧ C07Chain.finishes (C13.run (C13.run (C13.init .value) [.finish 7]).1 [.thenOp 1 []]).2 0 = 1 := by decide
+example : ∀ op ∈ [C13.Op.copyHandle, C13.Op.destroyCtx 2], C07Chain.Quiet 1 op := by
+  intro op h
+  simp only [List.mem_cons, List.mem_nil_iff, or_false] at h
+  rcases h with rfl | rfl
+  · exact Or.inl rfl
+  · exact Or.inr ⟨2, rfl, by decide⟩
 
 end Qx.C07
